@@ -1617,6 +1617,9 @@ impl<'a> Model<'a> {
                             }
                         }
                     }
+                    // A formula that evaluates to an empty cell (`=A4` with A4 empty) is stored as
+                    // the number 0: dependents evaluated in the same pass must observe that too
+                    CalcResult::EmptyCell | CalcResult::EmptyArg => CalcResult::Number(0.0),
                     _ => result,
                 }
             }
